@@ -405,7 +405,7 @@ func TestVerifC05Tcp(t *testing.T) {
 	if VThorough() {
 		n = 6000
 	}
-	for i := 0; i < n; i++ {
+	for i := 0; i < n && !c05Hung.Load(); i++ {
 		if i%12 == 9 {
 			st.Emit("oracle tcp-source-ends-with-rst", c05RunSrcReset(t, r))
 			stats.Inc("copy.tcp-source-reset")
@@ -527,6 +527,9 @@ var c05DstFailureInconclusive, c05GraceInconclusive int
 // c05Watchdog runs f; a copy that has not returned after two minutes of wall clock (every case moves at
 // most a few MiB over loopback) is reported as a hang instead of stalling the whole check: the conns are
 // closed to free the goroutine.
+// set by the first hang: the stream stops there (every further copy would cost another two minutes)
+var c05Hung atomic.Bool
+
 func c05Watchdog(f func() string, unblock func()) string {
 	done := make(chan string, 1)
 	go func() { done <- f() }()
@@ -534,6 +537,7 @@ func c05Watchdog(f func() string, unblock func()) string {
 	case out := <-done:
 		return out
 	case <-time.After(2 * time.Minute):
+		c05Hung.Store(true)
 		unblock()
 		select {
 		case <-done:
